@@ -242,7 +242,9 @@ func (P *Program) Check(opt CheckOpts) int {
 	}
 	want = func(o *Obligation) bool { return sel[o] }
 	DischargeAll(results, want, DischargeOpts{Tier: opt.Tier, TimeoutS: opt.TimeoutS, WorkDir: work, Keep: opt.Keep,
-		Short: func(o *Obligation) bool { return (P.findingFor(o.Name) != nil || knownFails(o.Name)) && opt.Tier != "thorough" }})
+		Short: func(o *Obligation) bool {
+			return (P.findingFor(o.Name) != nil || knownFails(o.Name)) && opt.Tier != "thorough"
+		}})
 
 	// ---- assess ----
 	total, discharged := 0, 0
@@ -336,6 +338,18 @@ func (P *Program) Check(opt CheckOpts) int {
 		violations = append(violations, fmt.Sprintf("VIOLATION property=%s replay=%s no-failing-input-found", prop, path))
 		total++
 	}
+	boundedRecs, bviol := P.runBounded(prop, opt.Tier, replayDir)
+	violations = append(violations, bviol...)
+	for _, pp := range P.ProductProblems {
+		if pp.Prop != prop {
+			continue
+		}
+		os.MkdirAll(replayDir, 0o755)
+		path := filepath.Join(replayDir, safeFile(pp.Name)+".txt")
+		os.WriteFile(path, []byte(fmt.Sprintf("property: %s\nfailed obligation: %s\n%s\nthe agreement of the two functions is not decided\n", prop, pp.Name, pp.Msg)), 0o644)
+		violations = append(violations, fmt.Sprintf("VIOLATION property=%s replay=%s no-failing-input-found", prop, path))
+		total++
+	}
 	sort.Strings(knownLines)
 	for _, l := range knownLines {
 		fmt.Println(l)
@@ -378,6 +392,9 @@ func (P *Program) Check(opt CheckOpts) int {
 	}
 	if expl != "" {
 		ev.Coverage["explanation"] = expl
+	}
+	if len(boundedRecs) > 0 {
+		ev.Coverage["bounded_standins"] = boundedRecs
 	}
 	evDir := filepath.Join(opt.VerifDir, "evidence")
 	os.MkdirAll(evDir, 0o755)
